@@ -70,6 +70,9 @@ pub struct Labels {
     pub rest_with_extra: u32,
     pub internal_defs: u32,
     pub internal_def_forward: u32,
+    pub let_over_lambda: u32,
+    pub one_armed_if: u32,
+    pub tail_statements: u32,
     pub applies: u32,
     pub shadowings: u32,
     pub derived: u32,
@@ -306,12 +309,22 @@ impl<'a, 'b> Gen<'a, 'b> {
             }
             // names and types first: lambdas may refer to later definitions
             let mut planned: Vec<(Name, Ty)> = vec![];
-            for _ in 0..n_defs {
-                let mut ty = if self.ch.chance(2, 5) { self.gen_fn_ty(1) } else { self.gen_simple_ty() };
+            // in a parameterless procedure with several definitions, often: the first definition is a closure made
+            // inside a frame of its own ("let over lambda") that uses the later definitions
+            let lol_first = thunk && n_defs >= 2 && self.ch.chance(1, 2);
+            for k in 0..n_defs {
+                let mut ty = if lol_first && k == 0 {
+                    // a thunk answering the definition that follows it
+                    Ty::Fn(vec![], false, Box::new(Ty::Int))
+                } else if self.ch.chance(2, 5) && !(lol_first && k == 1) {
+                    self.gen_fn_ty(1)
+                } else {
+                    self.gen_simple_ty()
+                };
                 let mut name = if matches!(ty, Ty::Fn(..)) { self.fresh_fn(&inner) } else { self.fresh_var(&inner) };
                 // in a parameterless procedure, prefer a name (and type) that is already bound outside: the internal
                 // definition must shadow it for the body only
-                if thunk && self.ch.chance(2, 3) {
+                if thunk && !(lol_first && k == 0) && self.ch.chance(2, 3) {
                     let outer: Vec<(Name, Ty)> = scope.iter().filter(|(_, t)| !matches!(t, Ty::Fn(..))).cloned().collect();
                     if !outer.is_empty() {
                         let (n, t) = outer[self.ch.below(outer.len())].clone();
@@ -329,9 +342,14 @@ impl<'a, 'b> Gen<'a, 'b> {
             }
             // reference discipline among procedure-valued internal definitions (no cycles): either every
             // lambda may call the later ones, or every lambda may call the earlier ones
-            let forward = self.ch.chance(1, 2);
+            if lol_first && planned.len() >= 2 && matches!(planned[0].1, Ty::Fn(..)) {
+                planned[0].1 = Ty::Fn(vec![], false, Box::new(planned[1].1.clone()));
+            }
+            let forward = self.ch.chance(1, 2) || lol_first;
             for (i, (name, ty)) in planned.iter().enumerate() {
                 self.labels.internal_defs += 1;
+                let early_fns: Vec<Name> =
+                    if forward { planned.iter().take(i).filter(|p| matches!(p.1, Ty::Fn(..))).map(|p| p.0.clone()).collect() } else { vec![] };
                 let value = match ty {
                     Ty::Fn(a, r, rt) => {
                         // the whole set of internal definitions is visible inside a lambda, except the one being
@@ -354,11 +372,34 @@ impl<'a, 'b> Gen<'a, 'b> {
                             }
                         }
                         s.retain(|(n, _)| n != name);
-                        self.gen_lambda(a, *r, rt, &s, fuel - 1)
+                        if self.ch.chance(1, 3) || (lol_first && i == 0) {
+                            // "let over lambda": the closure is created inside a frame opened while this definition
+                            // is being evaluated; it still sees the whole set of internal definitions of the body
+                            let now: Scope = inner.iter().filter(|(n, _)| n != name && !early_fns.contains(n)).cloned().collect();
+                            let kt = self.gen_simple_ty();
+                            let kn = self.fresh_var(&s);
+                            let kv = self.gen_expr(&kt, &now, fuel - 1);
+                            s.push((kn.clone(), kt));
+                            let lam = if lol_first && i == 0 && planned.len() >= 2 {
+                                let later = self.maybe_tick(var(&planned[1].0));
+                                Expr::Lambda(Formals { fixed: vec![], rest: None }, body1(later))
+                            } else {
+                                self.gen_lambda(a, *r, rt, &s, fuel - 1)
+                            };
+                            self.labels.let_over_lambda += 1;
+                            match self.ch.below(3) {
+                                0 => Expr::Let(vec![(kn, kv)], body1(lam)),
+                                1 => Expr::App(Box::new(Expr::Lambda(Formals { fixed: vec![kn], rest: None }, body1(lam))), vec![kv]),
+                                _ => Expr::LetStar(vec![(kn, kv)], body1(lam)),
+                            }
+                        } else {
+                            self.gen_lambda(a, *r, rt, &s, fuel - 1)
+                        }
                     }
                     t => {
                         // R7RS: the value of an internal definition must not refer to the variable being defined
-                        let s: Scope = inner.iter().filter(|(n, _)| n != name).cloned().collect();
+                        // (nor, under the forward discipline, call an earlier procedure that may use a later definition)
+                        let s: Scope = inner.iter().filter(|(n, _)| n != name && !early_fns.contains(n)).cloned().collect();
                         self.gen_expr(t, &s, fuel - 1)
                     }
                 };
@@ -368,6 +409,15 @@ impl<'a, 'b> Gen<'a, 'b> {
             }
         }
         let mut exprs = vec![];
+        if let Some(d) = defs.first() {
+            if defs.len() >= 2 && matches!(&d.value, Expr::Let(..) | Expr::LetStar(..) | Expr::App(..)) && matches!(lookup(&inner, &d.name), Some(Ty::Fn(a, false, _)) if a.is_empty()) {
+                // call the let-over-lambda thunk once all definitions are in place
+                let call = Expr::App(Box::new(var(&d.name)), vec![]);
+                let k = self.next_tick;
+                self.next_tick += 1;
+                exprs.push(if self.cfg.ticks { Expr::Tick(k, Box::new(call)) } else { call });
+            }
+        }
         if fuel > 0 {
             let n_stmts = self.ch.weighted(&[8, 2, 1]);
             for _ in 0..n_stmts {
@@ -380,6 +430,31 @@ impl<'a, 'b> Gen<'a, 'b> {
 
     /// an expression evaluated for effect only (its value is discarded)
     fn gen_statement(&mut self, scope: &Scope, fuel: u32) -> Expr {
+        if fuel > 0 && self.ch.chance(1, 6) {
+            // the statement in tail position of an immediately applied thunk (its value, possibly unspecified, is dropped)
+            let mut exprs = vec![];
+            if self.ch.chance(1, 3) {
+                exprs.push(self.gen_statement(scope, fuel - 1));
+            }
+            let last = if self.ch.chance(1, 2) {
+                let c = self.gen_test(scope, fuel - 1);
+                let c = if self.cfg.ticks && !matches!(c, Expr::Tick(..)) {
+                    let k = self.next_tick;
+                    self.next_tick += 1;
+                    Expr::Tick(k, Box::new(c))
+                } else {
+                    c
+                };
+                let a = self.gen_statement(scope, fuel - 1);
+                self.labels.one_armed_if += 1;
+                Expr::If(Box::new(c), Box::new(a), None)
+            } else {
+                self.gen_statement(scope, fuel - 1)
+            };
+            exprs.push(last);
+            self.labels.tail_statements += 1;
+            return Expr::App(Box::new(Expr::Lambda(Formals { fixed: vec![], rest: None }, Box::new(Body { defs: vec![], exprs }))), vec![]);
+        }
         if self.cfg.set && self.ch.chance(1, 2) {
             let mut cands: Vec<(String, Ty)> = vec![];
             for (n, _) in scope.iter() {
@@ -787,7 +862,8 @@ impl<'a, 'b> Gen<'a, 'b> {
     fn gen_datum_keys(&mut self, want: Option<&Datum>) -> Vec<Datum> {
         let n = 1 + self.ch.below(3);
         let mut keys: Vec<Datum> = (0..n)
-            .map(|_| match self.ch.below(3) {
+            .map(|_| match self.ch.below(4) {
+                3 => Datum::Sym(self.ch.pick_s(&["else", "=>", "if", "p"]).to_string()),
                 0 => Datum::Sym(self.ch.pick(SYMS).to_string()),
                 1 => Datum::Bool(self.ch.chance(1, 2)),
                 _ => Datum::Int(self.ch.range(0, 5) as i32),
